@@ -36,7 +36,7 @@ vars == <<l, sess, mode, gamePos, go, lastDepth, lastNodes, lastTime, lastPV, la
 
 Ev == Rec[l]
 StartPos == PosOfFen("rnbqkbnr/pppppppp/8/8/8/8/PPPPPPPP/RNBQKBNR w KQkq - 0 1")
-NoGo == [searchmoves |-> <<>>, limited |-> FALSE, stopped |-> FALSE]
+NoGo == [searchmoves |-> <<>>, limited |-> FALSE, stopped |-> FALSE, trunc |-> FALSE]
 ToS(seq) == {seq[i] : i \in 1 .. Len(seq)}
 UciSet(S) == {Uci(m) : m \in S}
 
@@ -74,7 +74,7 @@ InPosition ==
 InGo ==
   /\ Ev.ev = "in" /\ Ev.cmd = "go"
   /\ mode' = IF mode = "dead" THEN "dead" ELSE "searching"
-  /\ go' = [searchmoves |-> Ev.searchmoves, limited |-> Ev.limited, stopped |-> FALSE]
+  /\ go' = [searchmoves |-> Ev.searchmoves, limited |-> Ev.limited, stopped |-> FALSE, trunc |-> FALSE]
   /\ lastDepth' = "none" /\ lastNodes' = "none" /\ lastTime' = "none" /\ lastPV' = <<>> /\ lastScore' = NoScore
   /\ nsearch' = nsearch + 1
   /\ Record(<< <<mode # "searching", "C07", "harness sent go during a search (ill-behaved GUI)", "idle">> >>)
@@ -134,9 +134,9 @@ OutBestMove ==
                   ToString(U)>>,
                 <<(mustMove /\ sm # {}) => m.best \in sm, "C07", "bestmove " \o m.best \o " is not one of searchmoves", ToString(sm \cap U)>>,
                 <<L = {} => m.best = "none", "C07", "position without legal move must be answered with the null move", "none">>,
-                <<(mustMove /\ mode = "searching") => lastPV # <<>>, "C16", "bestmove announced although no principal variation was reported in this search", "pv">>,
+                <<(mustMove /\ mode = "searching" /\ ~go.trunc) => lastPV # <<>>, "C16", "bestmove announced although no principal variation was reported in this search", "pv">>,
                 <<lastPV # <<>> => m.best = lastPV[1], "C16", "bestmove is not the first move of the last reported pv " \o ToString(lastPV), ToString(lastPV)>>,
-                <<m.ponder = (IF Len(lastPV) >= 2 THEN lastPV[2] ELSE "none"), "C16",
+                <<go.trunc \/ m.ponder = (IF Len(lastPV) >= 2 THEN lastPV[2] ELSE "none"), "C16",
                   "ponder move " \o m.ponder \o " is not the second move of the last reported pv", IF Len(lastPV) >= 2 THEN lastPV[2] ELSE "none">> >>)
         /\ ntr' = IF go.limited \/ go.stopped \/ go.searchmoves # <<>> \/ nsearch > 1 THEN ntr \cup {l} ELSE ntr
   /\ mode' = IF mode = "dead" THEN "dead" ELSE "idle"
@@ -173,6 +173,21 @@ Timeout ==
   /\ mode' = "dead"
   /\ UNCHANGED <<sess, gamePos, go, lastDepth, lastNodes, lastTime, lastPV, lastScore, doneScore, nsearch, expect, ntr>>
 
+\* the harness process died (non-unwinding panic / signal) while this session was running
+Panic ==
+  /\ Ev.ev = "panic"
+  /\ Record(<< <<FALSE, Ev.p, "engine process aborted during " \o Ev.during \o ": " \o Ev.msg, "no abort">> >>)
+  /\ mode' = "dead"
+  /\ UNCHANGED <<sess, gamePos, go, lastDepth, lastNodes, lastTime, lastPV, lastScore, doneScore, nsearch, expect, ntr>>
+
+\* the recorder stopped logging a flood of info lines (they were counted, not judged); the pv of the last accepted
+\* iteration may have been among them, so the pv-consistency of the coming bestmove is not judged either
+Truncated ==
+  /\ Ev.ev = "truncated"
+  /\ lastPV' = <<>> /\ go' = [go EXCEPT !.trunc = TRUE]
+  /\ NoRecord
+  /\ UNCHANGED <<sess, mode, gamePos, lastDepth, lastNodes, lastTime, lastScore, doneScore, nsearch, expect, ntr>>
+
 End ==
   /\ Ev.ev = "end"
   /\ Record(<< <<mode # "searching", "C07", "session ended with an unanswered go", "bestmove">>,
@@ -183,7 +198,7 @@ Next ==
   /\ l <= Len(Rec)
   /\ l' = l + 1
   /\ \/ Start \/ InPosition \/ InGo \/ InOther \/ OutMalformed \/ OutInfo \/ OutBestMove \/ OutOther
-     \/ ProbeFen \/ ProbeFresh \/ Timeout \/ End
+     \/ ProbeFen \/ ProbeFresh \/ Timeout \/ End \/ Panic \/ Truncated
 
 Init ==
   /\ l = 1 /\ sess = 0 /\ mode = "idle" /\ gamePos = StartPos /\ go = NoGo
